@@ -189,11 +189,12 @@ func (p *BaseChannelProposal) Decode(r io.Reader) (err error) {
 func (p *BaseChannelProposal) Valid() error {
 	if p.InitBals == nil {
 		return errors.New("invalid nil fields")
+	} else if err := p.InitBals.Valid(); err != nil {
+		// Must come first: NumPeers reads the dimensions of InitBals.
+		return err
 	} else if err := channel.ValidateProposalParameters(
 		p.ChallengeDuration, p.NumPeers(), p.App); err != nil {
 		return errors.WithMessage(err, "invalid channel parameters")
-	} else if err := p.InitBals.Valid(); err != nil {
-		return err
 	} else if len(p.InitBals.Locked) != 0 {
 		return errors.New("initial allocation cannot have locked funds")
 	}
